@@ -10,7 +10,7 @@ def valid(inp):
     try:
         if not (1 <= inp["hosts"] <= 3 and 0 <= inp["services"] <= 4):
             return False
-        if not inp["ops"] or len(inp["ops"]) > 60:
+        if not inp["ops"] or len(inp["ops"]) > 260:
             return False
         lmd_steps = 0
         for op in inp["ops"]:
